@@ -29,7 +29,13 @@ def c06():
     return [stepper.PathLookup()]
 
 
+def c07():
+    from harness import convert
+    return [convert.ConvRoundTrip(), convert.EqHash()]
+
+
 REGISTRY = {
+    'C07': dict(harnesses=c07, run=_runner('C07', c07)),
     'C06': dict(harnesses=c06, run=_runner('C06', c06)),
     'C08': dict(harnesses=c08, run=_runner('C08', c08)),
     'C04': dict(harnesses=c04, run=_runner('C04', c04)),
